@@ -189,6 +189,25 @@ func Directed(s S) []any {
 			add(lift(m / 2))
 			add(lift(-m))
 			add(lift(0.0))
+			// non-multiples whose quotient is large (half-way and a little off a multiple): a tolerance relative to the
+			// quotient would take them for multiples
+			for _, k := range []float64{5e8, 1.5e9, 1e12, 3e15} {
+				if m == math.Trunc(m) && m >= 2 {
+					add(lift(m*k + 1))
+					add(lift(m*k + m - 1))
+				}
+				if fr, _ := math.Frexp(m); m > 0 && fr == 0.5 && k < 1e13 {
+					add(lift(m * (k + 0.5)))
+					add(lift(m * (k + 0.125)))
+					add(lift(m * k))
+				}
+			}
+			if m == math.Trunc(m) && m >= 3 && math.Mod(m, 2) == 1 {
+				// representable non-multiples whose quotient lies between 2^52 and 2^53 (it rounds to an integer)
+				add(lift(m*6e15 + 2))
+				add(lift(m*6e15 + 4))
+				add(lift(m * 6e15))
+			}
 			if m == math.Trunc(m) && m > 0 {
 				// exact multiples whose quotient is at and beyond 2^63 and 2^64
 				add(lift(m * 9223372036854775808.0))
